@@ -261,8 +261,11 @@ def check_cli(system, shapes_n):
         if st != 0:
             bad('cli-failed', 'exit status %r %s' % (st, cli.describe(exc)))
             continue
-        with open(dest, encoding='utf-8') as f:
-            text = f.read()
+        try:
+            text = codecs.read_out(dest)
+        except codecs.DecodeError as e:
+            bad('output-encoding', str(e))
+            continue
         os.unlink(dest)
         lines = text.split('\n')
         if lines[-1] != '':
